@@ -292,6 +292,7 @@ def run(ctx):
   ctx.check(ok, "FIN-range", f"{pf.qualname}|regions occupy exactly the configured safe area", ctx.where(pf.module, pf.node),
             "origin = safe_area %, extent = 100 - 2 * safe_area %, all from self.config.safe_area",
             f"the region origin / extent are no longer `self.config.safe_area` and `100 - 2 * self.config.safe_area` percent: {[short(u, 50) for u in uses][:4]}")
+  common.check_history_independence(ctx, common.DOC_FILTERS + ["ttconv.filters.isd_filter"])
 
 
 def re_safe(text):
